@@ -272,6 +272,11 @@ impl<A: LoadableAsset + SeekableAsset> TapeImpl for Tap<A> {
         self.delay = 0;
         self.asset.seek(SeekFrom::Start(0))?;
         self.tape_ended = false;
+        // Forget the resume point: playback restarts from the first block
+        self.prev_state = TapeState::Stop;
+        if self.state != TapeState::Stop {
+            self.state = TapeState::Play;
+        }
         Ok(())
     }
 }
